@@ -306,6 +306,9 @@ class KDQTreeNode:
             n <= count_ubound
             or np.unique(data).size <= count_ubound
             or new_cell_size <= min_cutpoint_sizes[axis]
+            # the midpoint can round up to the maximum (adjacent floats): the
+            # upper cell would be empty, so this node cannot be split
+            or midpoint_at_axis >= np.max(data[:, axis])
         ):
             leaf = KDQTreeNode({"build": n}, None, None, None, None)
             leaves.append(leaf)
